@@ -3,15 +3,22 @@ import os
 from cohdl._compiler.frontend import generate_internal_representation
 from cohdl._compiler.backend import generate_vhdl
 
+from ._context import SequentialContext
+
 
 class VhdlCompiler:
     @classmethod
     def to_ir(cls, entity):
-        return generate_internal_representation(entity)
+        try:
+            return generate_internal_representation(entity)
+        finally:
+            # a compilation that is rejected while a SequentialContext is
+            # converted never reaches the end of that context
+            SequentialContext._exit_context()
 
     @classmethod
     def to_vhdl_library(cls, top_entity, *, additional_reserved_names: set[str] = None):
-        ir = generate_internal_representation(top_entity)
+        ir = cls.to_ir(top_entity)
         return generate_vhdl(ir, additional_reserved_names=additional_reserved_names)
 
     @classmethod
